@@ -420,7 +420,7 @@ theorem SInv.of_PX {st st' : St} (inv : SInv gh st) (F : PenFrame st st') (P : P
   have hg : ∀ j, getX st' j = getX st j := fun j => by unfold getX; rw [F.wx]
   refine ⟨⟨by rw [F.tree]; exact inv.tinv, by rw [F.wx, F.tree]; exact inv.wx_size, by rw [F.tree]; exact inv.rc,
     List.nodup_nil, by intro i hi; simp at hi, ?_, ⟨?_, ?_, ?_⟩, ?_, ?_, ?_,
-    ⟨by rw [F.rbs]; exact inv.simple.1, by rw [F.strs]; exact inv.simple.2⟩⟩, ?_⟩
+    ⟨by rw [F.rbs]; exact inv.simple.1, by rw [F.strs]; exact inv.simple.2⟩⟩, ?_, by rw [F.tree]; exact inv.glive⟩
   · intro i w hw hf hi; rw [hg]; rw [F.tree] at hw; exact inv.dead_pen i w hw hf hi
   · intro k p hk
     refine ⟨fun hf => ?_, fun hf => ((P.rc k p hk).2 hf).1⟩
